@@ -11,13 +11,13 @@ CLAIMED = {
   text="For every diff shape within the bound (kind sequence and hunk cuts enumerated by forking) and every placement of hunks, block and changed character ranges (symbolic integers up to 2^32), Z3 shows that the MIR of line_changes + content_intersects_with_any marks the block modified when an edit lies between its tags and leaves it unmodified when the diff stays away from it. Unsat within the bound, nothing more.",
   note="Trusted: the MIR text parser/interpreter, the std models listed in the evidence, the transcription of unidiff 0.4.0 hunk numbering (validated per run against the real parser through the real binary), the line_diff contract stub. Not decided: unidiff's text parser, git itself, more than 6 diff lines / 3 hunks."),
  'C02': dict(
-  text="For every list of <=4 line changes (whole-line or <=2 char ranges each) and every geometry of a block's start tag, start comment and end comment (symbolic integers), Z3 shows on the MIR of the parse_file filter closure and the four intersection functions: selected <=> tag or content touched; content-modified <=> content touched; attribute-only and end-tag-only edits are not content edits; scan mode keeps every block.",
-  note="Trusted: interpreter + std models. Assumed: changes sorted by line, ranges sorted/separated (post-condition of the diff side, C01). Whole-line changes on tag-comment lines are don't-care. Not decided here: validators' independence of the modified flags (C06-C09 harnesses), globs (C15)."),
+  text="For every list of <=4 line changes (whole-line or <=2 char ranges each; plus shapes with 3-5 ranges on one line) and every geometry of a block's start tag, start comment and end comment (symbolic integers), Z3 shows on the MIR of the parse_file filter closure and the four intersection functions: selected <=> tag or content touched; content-modified <=> content touched; attribute-only and end-tag-only edits are not content edits; scan mode keeps every block.",
+  note="Trusted: interpreter + std models; in the thorough tier Kani/CBMC re-decides the two intersection functions on the compiled code (<=3 ranges). main() wiring (diff read iff not terminal, should_scan_files, default glob) is decided on the bin MIR with recording stubs. Assumed: changes sorted by line, ranges sorted/separated (post-condition of the diff side, C01). Whole-line changes on tag-comment lines are don't-care. Not decided here: validators' independence of the modified flags (C06-C09 harnesses), globs (C15)."),
  'C09': dict(
-  text="For every line-count expression up to the length bound over the alphabet '<>= 0-9x+tab' and every content of <= N short lines over {a, space, tab}, Z3 shows on the MIR of LineCountValidator::validate + parse_constraint: the run errors exactly on expressions outside the grammar ws* OP ws* +?digits ws* (value < 2^64); otherwise one violation iff not(count OP N) with data.actual/op/expected equal to count, OP, N.",
+  text="For every line-count expression up to the length bound over the alphabet '<>= 0-9x+tab' and every content of <= N short lines over {a, space, tab}, Z3 shows on the MIR of LineCountValidator::validate + parse_constraint: the run errors exactly on expressions outside the grammar ws* OP ws* +?digits ws* (value < 2^64); otherwise one violation iff not(count OP N) with data.actual/op/expected equal to count, OP, N; with several line-count blocks in one file (an empty one among them) every block is judged on its own count.",
   note="Trusted: interpreter, string models (byte-wise ASCII semantics of trim/strip_prefix/parse/lines), serde_json::to_value modelled as identity. Two families (symbolic expression x concrete content; concrete expression menu x symbolic content) instead of the full product. ASCII only."),
  'C16': dict(
-  text="For every path of up to N bytes over an alphabet that spells the compound and look-alike suffixes, and every single -E remap pair, Z3 shows on the MIR of parse_file/parser_for_file_path/try_parser_for_extension, against the suffix table obtained by executing language_parsers() itself: the grammar used is the entry of the shortest dotted suffix that is (after remap) a key, else of the whole file name, else the file is neither read nor parsed. parse_extensions/Args::validate: KEY=VALUE needs '=', mappings onto unsupported grammars are rejected, onto each of the 39 keys accepted.",
+  text="For every path of up to N bytes over an alphabet that spells the compound and look-alike suffixes, and every single -E remap pair, Z3 shows on the MIR of parse_file/parser_for_file_path/try_parser_for_extension, against the suffix table obtained by executing language_parsers() itself: the grammar used is the entry of the shortest dotted suffix that is (after remap) a key, else of the whole file name, else the file is neither read nor parsed; names with a literal compound suffix behind a symbolic stem (x.go.mod, x.d.ts ...); several files per run through parse_blocks (each file judged by its own name); every registered suffix carries the grammar of the language it conventionally denotes (independent table). parse_extensions/Args::validate: KEY=VALUE needs '=', mappings onto unsupported grammars are rejected, onto each of the 39 keys accepted.",
   note="Trusted: interpreter, string/path/HashMap models, stubs for the 23 grammar constructors, FileSystem::read_to_string and BlocksParser::parse. Not decided: clap's argument parsing, paths with '.', '..' or empty components, non-ASCII names."),
  'C15': dict(
   text="For <=4 files with arbitrary (symbolic) walked / allow / ignore / named-in-diff flags, symbolic should_scan_files and several walk and map iteration orders, Z3 shows on the MIR of parse_blocks/parse_file that the files read are exactly (scan and walked and allow, or in diff) minus ignore, each once, and are the keys of the result. For every diff target path up to N bytes, line_changes_from_diff files it under the target minus exactly one leading b/, and skips removed files.",
@@ -26,10 +26,10 @@ CLAIMED = {
   text="For every enumerated layout (lines before, indentation, 1-4 comment lines, tag on any of them, text after the comment on its last line, per-line lead/key/trail shapes) and every value of the key and blank bytes, Z3 shows on the MIR of the block parser glue and of the five sync validators: a sort/unique/pattern violation's line and byte columns delimit exactly the first offending key in the assembled file; line-count and affects violations span exactly '<'..'>' of the start tag; the block's tag position and content byte range are those of the layout.",
   note="Trusted: interpreter, string models. Stubs: tree-sitter (the two Comment values of a /* */ layout; validated on sampled witnesses against the real binary), regex for ^a+$ only; the tag scanner and grammar are the crate's MIR on the winnow combinator models (C05), serde_json::to_value. Not decided: Lua/AI ranges (async), regex-group keys, multi-byte text, other comment syntaxes."),
  'C06': dict(
-  text="For every enumerated configuration (direction spelled empty/asc/ASC/desc/Desc, lexicographic or numeric format) and per-line shape of up to N content lines, and every value of the key and blank bytes, Z3 shows on the MIR of KeepSortedValidator::validate and its helpers: a violation is reported iff some key is strictly out of order w.r.t. its predecessor (bytewise, or as integers under numeric; equal neighbours are in order), exactly one, designating the first such key; the verdict does not depend on the is_content_modified / tag-modified flags.",
+  text="For every enumerated configuration (direction spelled empty/asc/ASC/desc/Desc, lexicographic or numeric format) and per-line shape of up to N content lines, and every value of the key and blank bytes, Z3 shows on the MIR of KeepSortedValidator::validate and its helpers: a violation is reported iff some key is strictly out of order w.r.t. its predecessor (bytewise, or as integers under numeric; equal neighbours are in order), exactly one, designating the first such key; the verdict does not depend on the is_content_modified / tag-modified flags. Blanks range over space, tab, vertical tab and a literal three-byte U+3000; one or two blocks per file, also with different rules on the two blocks.",
   note="Trusted: interpreter, string models incl. the integer fragment of f64 parsing/comparison. Stubs as in C10. Not decided: keep-sorted-pattern (regex) forms, decimal/exponent/inf/nan numerics, non-ASCII keys, more than 5 lines."),
  'C07': dict(
-  text="For every enumerated per-line shape of up to N content lines in the three key forms (trimmed line; `value` group of k=(?P<value>[ab]+); whole match of [ab]+) and every value of all bytes, Z3 shows on the MIR of KeepUniqueValidator::validate: a violation iff two keys are equal, exactly one, on the first line whose key occurred before, with the range on that key; blank and non-matching lines ignored; verdict independent of the modified flags.",
+  text="For every enumerated per-line shape of up to N content lines in five key forms (trimmed line; `value` group of k=(?P<value>[ab]+); group followed by varying text (?P<value>[ab]+)=[cd]; optional group z(?P<value>[ab]+)? falling back to the whole match; whole match of [ab]+) and every value of all bytes, Z3 shows on the MIR of KeepUniqueValidator::validate: a violation iff two keys are equal, exactly one, on the first line whose key occurred before, with the range on that key; blank and non-matching lines ignored; verdict independent of the modified flags.",
   note="Trusted: interpreter, string/HashSet models, the reference regex matcher mirsym/rexmodel.py (not the regex crate; differentially tested against Python re and validated on sampled witnesses against the real binary). Not decided: other patterns, non-ASCII, more than 5 lines."),
  'C08': dict(
   text="For six patterns (^a+$, a, ^[ab]$, ^.*b$, ^$, ^a*b+$), every enumerated per-line shape of up to N lines and every value of the key/blank bytes over {a,b,c,space,tab}, Z3 shows on the MIR of LinePatternValidator::validate: a violation iff some trimmed non-blank line is outside the pattern's language (written independently as a formula over the key bytes), exactly one, on the first such line, with the range on the trimmed text.",
@@ -62,10 +62,10 @@ CLAIMED = {
   text="For concrete multi-file scenarios executed on the real MIR of detect_validators, validators::run (sync path), the sync validators and process_violations, with the iteration order of every hash map and the validator spawn order chosen by the solver (all permutations of <=3 entries) and one severity attribute symbolic: the instantiated validators, the merged violations (as multisets), and the exit status are identical across all orders; parse_blocks examines the same files and produces the same keys under every walk/map order; diff sections in every order give the same line changes. An async scenario (four check-lua blocks, one check-ai block, one sync validator; healthy and with one failing script) on the coroutine MIR gives one verdict under every completion order of the tokio tasks, every map order and every core count in [1,16] (symbolic).",
   note="A hashing seed can only change iteration order, which is a parameter of the HashMap model. Threads are run in spawn order, tokio tasks as atomic steps in every completion order; the core count is std::thread::available_parallelism as a symbolic input (replayed with taskset). Outside: OS scheduling inside tasks, cwd, the order ignore::Walk really produces."),
  'C18': dict(
-  text="On the MIR of validators::run, run_async_validators, CheckLuaValidator::validate, the per-block task, run_lua_script (all as the coroutine state machines rustc prints), block_content and create_violation: for 1-3 (thorough 4) check-lua blocks over 1-2 files, every outcome per script from {nil, string, file missing, load error, no validate, runtime error, non-string result}, symbolic content / blanks / returned strings / attribute values and every completion order of the tasks, Z3 shows: any failing script makes the run Err; otherwise validate() is called exactly once per block with ctx.file = the file path, ctx.line = the start tag's line, ctx.attrs = all attributes and content = trimmed content or the `value` group / whole first match / empty; nil gives no diagnostic, a string exactly one check-lua diagnostic whose lua_error is that string.",
+  text="On the MIR of validators::run, run_async_validators, CheckLuaValidator::validate, the per-block task, run_lua_script (all as the coroutine state machines rustc prints), block_content and create_violation: for 1-3 (thorough 4) check-lua blocks over 1-2 files (and 12-34 blocks under two fixed completion orders), every outcome per script from {nil, string, file missing, load error, no validate, runtime error, non-string result, a script that keeps state between calls and is shared by several blocks}, symbolic content / blanks / returned strings / attribute values and every completion order of the tasks, Z3 shows: any failing script makes the run Err; otherwise validate() is called exactly once per block with ctx.file = the file path, ctx.line = the start tag's line, ctx.attrs = all attributes and content = trimmed content or the `value` group / whole first match / empty; nil gives no diagnostic, a string exactly one check-lua diagnostic whose lua_error is that string.",
   note="mlua and the Lua VM are a contract stub (handles, recorded table.set, outcome per script), tokio is a model: a spawned task runs atomically when the JoinSet is polled and the completion order is a forked choice - real interleavings inside tasks, 1..16 worker threads, CPU affinity and timing are NOT explored (the schedules/fault_sequences quantifier of the property is covered only as 'every completion order' and 'every subset failing in each mode'). Every run validates sampled paths against the real binary with real Lua scripts that log their arguments. Up to 4 blocks, not 40."),
  'C19': dict(
-  text="On the MIR of validators::run, run_async_validators, CheckAiValidator::validate, the per-block task, OpenAiClient::new_from_env and check_block (coroutine state machines), block_content, process_ai_response, create_violation: for 1-3 (thorough 4) check-ai blocks over 1-2 files, reply kind per block from {text, Err, no choices, null content}, key present / unset / empty, symbolic condition / content / blanks / reply text / model and URL values and every completion order, Z3 shows: a missing key or any faulty reply makes the run Err (no request without a key); otherwise exactly one request per block whose user message is `CONDITION:\\n<condition>\\n\\nBLOCK (formatting preserved):\\n<trimmed content>` byte for byte, with the model, endpoint and key of the BLOCKWATCH_AI_* variables (or defaults); a reply equal to OK / OK. in any letter case gives no diagnostic, any other reply exactly one check-ai diagnostic whose ai_message is the reply.",
+  text="On the MIR of validators::run, run_async_validators, CheckAiValidator::validate, the per-block task, OpenAiClient::new_from_env and check_block (coroutine state machines), block_content, process_ai_response, create_violation: for 1-3 (thorough 4) check-ai blocks over 1-2 files (and 10-12 blocks under two fixed completion orders), reply kind per block from {text, Err, no choices, null content}, key present / unset / empty / only a foreign OPENAI_API_KEY present, symbolic condition / content / blanks / reply text / model and URL values and every completion order, Z3 shows: a missing key or any faulty reply makes the run Err (no request without a key); otherwise exactly one request per block whose user message is `CONDITION:\\n<condition>\\n\\nBLOCK (formatting preserved):\\n<trimmed content>` byte for byte, with the model, endpoint and key of the BLOCKWATCH_AI_* variables (or defaults); a reply equal to OK / OK. in any letter case gives no diagnostic, any other reply exactly one check-ai diagnostic whose ai_message is the reply.",
   note="async-openai is a contract stub at the level of chat().create(): connection refused, 4xx, invalid JSON and a body cut short are all Err(OpenAIError) there; HTTP, JSON escaping and reqwest are exercised only by the per-run validation, which runs the real binary against a loopback fake endpoint on sampled paths (requests recorded, model / Authorization / path / user message compared). tokio as in C18 (completion orders, not interleavings). check-ai-pattern selection shares its code shape with check-lua-pattern (C18) and is not in the task list."),
 }
 
